@@ -43,8 +43,15 @@ def _callbacks(repo):
     out = {}
     for k, v in c.imports.items():
         out[k] = ("import", v)
+    mod_imports = getattr(c.module, "imports", {})
     for k, v in c.consts.items():
-        out[k] = ("const", A.dotted(v) or A.src(v))
+        d = A.dotted(v)
+        if d and "." in d and mod_imports.get(d.split(".")[0]) in (d.split(".")[0],) and d.split(".")[0] == "operator":
+            out[k] = ("import", d)                      # add = operator.add, with `import operator` at module level
+        elif d and d in mod_imports and str(mod_imports[d]).startswith("operator."):
+            out[k] = ("import", mod_imports[d])         # add = add, with `from operator import add` at module level
+        else:
+            out[k] = ("const", d or A.src(v))
     for k, fn in c.methods.items():
         out[k] = ("method", fn)
     return c, out
